@@ -195,6 +195,8 @@ def read_output(out, S, sigp, warmed):
     oF = np.array(out.faces)
     check(oF.dtype.kind in "iu", sigp + "|faces_dtype", f"faces dtype {oF.dtype}")
     oF = oF.astype(np.int64)
+    if oF.size == 0:
+        oF = oF.reshape((0, 3))  # an array without faces may be stored as (0,) (concatenation of face-less meshes)
     check(oV.ndim == 2 and oV.shape[1] == 3, sigp + "|vertices_shape", f"{oV.shape}")
     check(oF.ndim == 2 and oF.shape[1] == 3, sigp + "|faces_shape", f"{oF.shape}")
     if oF.size:
@@ -208,13 +210,13 @@ def read_output(out, S, sigp, warmed):
         if okind != "face":
             suffix["face_colors"] = "|out_kind=" + str(okind)
         fc = np.array(vis.face_colors)
-        check(fc.shape == (nf, 4), sigp + f"|face_colors|length|out_kind={okind}", f"face_colors shape {fc.shape} for {nf} faces")
+        check(fc.shape == (nf, 4) or (nf == 0 and len(fc) == 0), sigp + f"|face_colors|length|out_kind={okind}", f"face_colors shape {fc.shape} for {nf} faces")
         fo["face_colors"] = fc
     if "vertex_colors" in S.vdata and okind is not None and okind != "texture":
         if okind != "vertex":
             suffix["vertex_colors"] = "|out_kind=" + str(okind)
         vc = np.array(vis.vertex_colors)
-        check(vc.shape == (nv, 4), sigp + f"|vertex_colors|length|out_kind={okind}", f"vertex_colors shape {vc.shape} for {nv} vertices")
+        check(vc.shape == (nv, 4) or (nv == 0 and len(vc) == 0), sigp + f"|vertex_colors|length|out_kind={okind}", f"vertex_colors shape {vc.shape} for {nv} vertices")
         vo["vertex_colors"] = vc
     if "uv" in S.vdata and okind == "texture" and vis.uv is not None and len(vis.uv):
         uv = np.array(vis.uv, dtype=np.float64)
@@ -948,6 +950,8 @@ def _seq_items(op, nf, rs):
             items.append((idx, idx))
         elif style == "empty":
             items.append((np.zeros(0, dtype=np.int64), np.zeros(0, dtype=np.int64)))
+        elif style == "empty_bool":
+            items.append((np.zeros(nf, dtype=bool), np.zeros(0, dtype=np.int64)))
     return items
 
 
@@ -1158,6 +1162,13 @@ OPS = {
 # =================================================================================== concatenation body
 
 
+def _faces_shape(mesh):
+    """`faces` is documented as (n, 3) also for n = 0 (Trimesh() itself stores (0, 3)); a (0,) array breaks
+    faces_sparse / vertex_normals of the result"""
+    shp = np.shape(mesh.faces)
+    check(len(shp) == 2 and shp[1] == 3, "C07.concat|result_faces_not_(n,3)|no_input_has_faces", f"concatenation returned a mesh whose faces have shape {shp} (with {len(mesh.vertices)} vertices)")
+
+
 @body("C07.concat")
 def b_concat(case, ctx):
     how = case["how"]
@@ -1166,20 +1177,52 @@ def b_concat(case, ctx):
     off = 0
     labels = ["op:concat:" + how, "concat:n=%d" % len(case["parts"])]
     kinds = []
+    shapes = []
     for p in case["parts"]:
-        D = G.build_dirty(p["dirty"], dv=8)
-        if not len(D["F"]):
-            ctx.note(cls=labels)
-            return
+        # shape of the part: normal | single (one face) | faceless_ctor / faceless_masked (vertices but no face, built
+        # that way or left over by an all-False update_faces) | empty (Trimesh())
+        shape = p.get("shape", "normal")
+        if shape == "empty":
+            D = {"V": np.zeros((0, 3)), "F": np.zeros((0, 3), dtype=np.int64), "cu": np.zeros(0, dtype=np.int64), "cn": np.zeros(0, dtype=np.int64), "noff": np.zeros(0), "info": [], "rs": np.random.RandomState(0)}
+        else:
+            D = G.build_dirty(p["dirty"], dv=8)
+        if not len(D["F"]) and shape in ("normal", "single"):
+            shape = "faceless_ctor"
+        if shape == "faceless_ctor" and p["attach"]["visual"] == "face" and len(D["F"]):
+            # a face-coloured mesh without faces is obtained by masking (an empty (0,4) colour array handed to the
+            # constructor is outside this property: color.to_rgba turns it into a (0,5) array)
+            shape = "faceless_masked"
+        if shape == "single":
+            D["F"] = D["F"][[int(p["dirty"].get("seed", 0)) % len(D["F"])]].copy()
+        elif shape == "faceless_ctor":
+            D["F"] = np.zeros((0, 3), dtype=np.int64)
         tags = G.make_tags(D, id_offset=off)
         off += 400
-        m = build_mesh(D, tags, p["attach"])
-        if p["attach"]["warm"]:
+        if shape == "empty":
+            m = trimesh.Trimesh()
+        else:
+            m = build_mesh(D, tags, p["attach"])
+        if shape == "faceless_masked":
+            m.update_faces(np.zeros(len(D["F"]), dtype=bool))
+            D["F"] = np.zeros((0, 3), dtype=np.int64)
+            tags = G.make_tags(D, id_offset=off - 400)  # same per-vertex tags, no per-face rows
+        if p["attach"]["warm"] and shape in ("normal", "single"):
             warm(m)
         meshes_.append(m)
         Ds.append(D)
         tagss.append(tags)
-        kinds.append(p["attach"]["visual"])
+        shapes.append(shape)
+        if shape != "empty":  # an empty mesh contributes no rows to any visual: neutral
+            kinds.append(p["attach"]["visual"])
+    has_faces = [len(D["F"]) > 0 for D in Ds]
+    for sh in sorted(set(shapes) - {"normal"}):
+        labels.append("concat:has_" + sh)
+    for i, sh in enumerate(shapes):
+        if sh.startswith("faceless") and len(Ds[i]["V"]) and any(has_faces[i + 1 :]):
+            labels.append("concat:faceless_before_faces")
+        if sh == "empty" and any(has_faces[i + 1 :]):
+            labels.append("concat:empty_before_faces")
+    attached = [p["attach"] if sh != "empty" else dict(p["attach"], fnorm=False, vnorm=False, warm=False) for p, sh in zip(case["parts"], shapes)]
     # ---- combined source
     V = np.vstack([D["V"] for D in Ds])
     offs = np.cumsum([0] + [len(D["V"]) for D in Ds])[:-1]
@@ -1193,13 +1236,13 @@ def b_concat(case, ctx):
         vdata["vertex_colors"] = np.vstack([t["VC"] for t in tagss])
     # normals: only the attached tags are tracked (computed normals are not unique); parts without tags get a filler
     # value that cannot occur, so their rows in the output can only be (correct) recomputations
-    fn_ok = [bool(p["attach"]["fnorm"]) and _b(np.array(m.face_normals, dtype=np.float64)) == _b(t["FN"]) for p, m, t in zip(case["parts"], meshes_, tagss)]
+    fn_ok = [bool(a_["fnorm"]) and _b(np.array(m.face_normals, dtype=np.float64)) == _b(t["FN"]) for a_, m, t in zip(attached, meshes_, tagss)]
     if any(fn_ok):
         fdata["face_normals"] = np.vstack([t["FN"] if ok else np.full((len(t["FN"]), 3), 9.0) for ok, t in zip(fn_ok, tagss)])
-    if any(p["attach"]["vnorm"] for p in case["parts"]):
-        vdata["vertex_normals"] = np.vstack([t["VN"] if p["attach"]["vnorm"] else np.full((len(t["VN"]), 3), 9.0) for p, t in zip(case["parts"], tagss)])
+    if any(a_["vnorm"] for a_ in attached):
+        vdata["vertex_normals"] = np.vstack([t["VN"] if a_["vnorm"] else np.full((len(t["VN"]), 3), 9.0) for a_, t in zip(attached, tagss)])
     S = Source(V, F, first if uniform else "none", fdata, vdata, scale=max(float(p["dirty"].get("scale", 1.0)) for p in case["parts"]))
-    S.watch_fn = any(p["attach"]["fnorm"] or p["attach"]["warm"] for p in case["parts"]) and bool(np.isfinite(V).all())
+    S.watch_fn = any(a_["fnorm"] or a_["warm"] for a_ in attached) and bool(np.isfinite(V).all())
     labels.append("tag:" + (first if uniform else "mixed"))
 
     if how == "concatenate_list":
@@ -1210,16 +1253,38 @@ def b_concat(case, ctx):
         out = meshes_[0]
         for m in meshes_[1:]:
             out = out + m
+            _faces_shape(out)
     elif how == "sum":
-        out = sum(meshes_)
+        try:
+            out = sum(meshes_)
+        except IndexError as e:
+            # sum() is the chain ((0 + a) + b) + c: when a and b have no faces the intermediate result has (0,) faces
+            # (checked directly in the `add` form) and breaks the next addition
+            if len(has_faces) > 2 and not has_faces[0] and not has_faces[1]:
+                raise Violation("C07.concat|result_faces_not_(n,3)|no_input_has_faces", f"sum() of meshes starting with two face-less meshes raised IndexError: {e}")
+            raise
     else:
         raise ValueError(how)
     check(isinstance(out, trimesh.Trimesh), sigp + "|result_type", f"{type(out).__name__}")
+    _faces_shape(out)
     opt = Opt()
     oV, oF, fo, vo, opt.suffix = read_output(out, S, sigp, False)
+    # a visual that could not be combined is dropped by concatenate (absent is allowed); in a chain of `+` the faces
+    # of the earlier result then show the default colour: also "absent", not another element's value
+    default = _b(np.array(trimesh.visual.color.DEFAULT_COLOR, dtype=np.uint8))
+    for dd, nm in ((fo, "face_colors"), (vo, "vertex_colors")):
+        if nm in dd and any(_b(r) == default for r in dd[nm]):
+            del dd[nm]
+            labels.append("concat:colors_defaulted")
     track(S, oV, oF, fo, vo, list(range(S.nf)), opt, sigp)
-    check(np.array_equal(oF, S.F), sigp + "|faces", "faces are not the input faces shifted by the vertex offsets")
-    vertices_by_mask(S, oV, vo, np.arange(S.nv), sigp)
+    if len(oV) == S.nv:
+        # all input vertices were stacked (also those of inputs without faces): then everything is in place
+        check(np.array_equal(oF, S.F), sigp + "|faces", "faces are not the input faces shifted by the vertex offsets")
+        vertices_by_mask(S, oV, vo, np.arange(S.nv), sigp)
+    else:
+        # vertices of inputs without faces may be left out; the triangles and their data were compared above
+        nref = sum(len(D["V"]) for D, hf in zip(Ds, has_faces) if hf)
+        check(len(oV) == nref, sigp + "|vertex_count", f"{len(oV)} vertices in the output; inputs hold {S.nv}, those with faces {nref}")
     if uniform and first == "texture":
         uv = out.visual.uv if out.visual.kind == "texture" else None
         if uv is not None:
@@ -1228,7 +1293,7 @@ def b_concat(case, ctx):
     for m, D in zip(meshes_, Ds):
         check(_b(np.array(m.vertices)) == _b(D["V"]) and np.array_equal(np.array(m.faces), D["F"]), sigp + "|input_modified", "an input mesh was changed by the concatenation")
     carried_labels(S, fo, vo, labels)
-    ctx.note(nontrivial=len(case["parts"]) >= 2 and S.has_tags(), cls=sorted(set(labels)))
+    ctx.note(nontrivial=sum(1 for D in Ds if len(D["V"])) >= 2 and S.has_tags(), cls=sorted(set(labels)))
 
 
 # =================================================================================== strategies
@@ -1260,7 +1325,7 @@ def op_spec(draw, name):
     elif name == "nondegenerate_faces":
         op["height"] = draw(st.sampled_from([None, None, 1e-8, 1e-5, 1e-3]))
     elif name == "submesh":
-        op["items"] = draw(st.lists(st.sampled_from(["bool", "int", "sorted", "tuple", "repeats", "single", "empty"]), min_size=1, max_size=4))
+        op["items"] = draw(st.lists(st.sampled_from(["bool", "int", "sorted", "tuple", "repeats", "single", "single", "empty", "empty_bool"]), min_size=1, max_size=4))
         op["append"] = draw(st.booleans())
         op["only_watertight"] = draw(st.sampled_from([False, False, True]))
     elif name == "split":
@@ -1283,7 +1348,7 @@ def ops_case(draw, names):
 
 @st.composite
 def concat_case(draw):
-    n = draw(st.sampled_from([2, 2, 3]))
+    n = draw(st.sampled_from([2, 2, 3, 3, 4]))
     uniform = draw(st.sampled_from([True, True, False]))
     parts = []
     a0 = draw(G.attach_spec())
@@ -1293,7 +1358,8 @@ def concat_case(draw):
         a = draw(G.attach_spec())
         if uniform:
             a["visual"] = a0["visual"]
-        parts.append({"dirty": d, "attach": a})
+        shape = draw(st.sampled_from(["normal"] * 6 + ["single", "faceless_ctor", "faceless_masked", "empty"]))
+        parts.append({"dirty": d, "attach": a, "shape": shape})
     return {"how": draw(st.sampled_from(["concatenate_list", "concatenate_ab", "add", "sum"])), "parts": parts}
 
 
@@ -1376,4 +1442,9 @@ REQUIRED_CLASSES["C07"] = [
     "vmask:int_repeats",
     "mask:bool_drop_few",
     "dirt:dupv_straddle",
+    "concat:faceless_before_faces",
+    "concat:empty_before_faces",
+    "concat:has_single",
+    "concat:has_faceless_masked",
+    "concat:has_faceless_ctor",
 ]
